@@ -27,8 +27,15 @@ Fails(c) ==
                     p = NULL \/ Cardinality(ChildrenOf(nodes, par, p)) # 1 \/ (p \in DOMAIN obs /\ obs[p] # MISSING)
                     \/ \E q \in 1..Len(muts) : muts[q].node = p
      }
+\* wide trees: the minimum is known in closed form; that the returned placement reproduces the data is evaluated by the harness
+WideFails(c) ==
+  {cl \in {"wide_minimal", "wide_reproduces", "wide_fixed_ancestral"} :
+     ~ CASE cl = "wide_minimal" -> c.nmuts = (IF c.shape = "star" THEN StarMin(c.counts, c.fixed) ELSE ForestMin(c.counts, c.fixed))
+         [] cl = "wide_reproduces" -> c.reproduces = 1
+         [] cl = "wide_fixed_ancestral" -> c.fixed = -1 \/ c.anc = c.fixed}
+AllFails(c) == IF "shape" \in DOMAIN c THEN WideFails(c) ELSE Fails(c)
 Init == k = 0
 Next == k < Len(Cases) /\ k' = k + 1
 Spec == Init /\ [][Next]_k
-Report == k = 0 \/ PrintT(<<"V", Cases[k].id, Fails(Cases[k])>>)
+Report == k = 0 \/ PrintT(<<"V", Cases[k].id, AllFails(Cases[k])>>)
 =============================================================================
